@@ -535,6 +535,24 @@ PERTURB_VALUES = {
 }
 
 
+ALIASES = {
+    'utf-8': ['utf8', 'UTF-8', 'U8', 'utf_8'],
+    'latin-1': ['latin1', 'iso-8859-1', 'L1', 'iso8859-1'],
+    'utf-16': ['UTF-16', 'utf_16', 'U16'],
+    'utf-32': ['UTF-32', 'utf_32', 'U32'],
+    'ascii': ['us-ascii', 'ASCII', '646'],
+    'cp037': ['IBM037', 'ibm037', 'CP037'],
+    'cp1252': ['windows-1252', 'CP1252'],
+    'utf-16-le': ['UTF-16LE', 'utf_16_le'],
+    'utf-16-be': ['UTF-16BE', 'utf_16_be'],
+    'utf-32-le': ['UTF-32LE'], 'utf-32-be': ['UTF-32BE'],
+    'shift_jis': ['sjis', 'shiftjis'], 'gbk': ['936', 'cp936'],
+    'big5': ['big5-tw', 'csbig5'], 'koi8-r': ['KOI8-R', 'koi8_r'],
+}
+ENC_ATTRS = ('encoding', 'preamble_encoding', 'meta_encoding',
+             'diff_encoding')
+
+
 def _reversed_keys(v):
     if isinstance(v, dict):
         return {k: _reversed_keys(v[k]) for k in reversed(list(v))}
@@ -554,6 +572,7 @@ def pairs(draw):
 
     for _ in range(n):
         kind = draw(hs.sampled_from(['set', 'set', 'set', 'unset', 'deep',
+                                     'respell', 'respell',
                                      'reorder-keys', 'reorder-keys',
                                      'add-change', 'del-change',
                                      'swap-changes', 'add-file', 'del-file',
@@ -574,6 +593,15 @@ def pairs(draw):
         if kind == 'set':
             name = draw(hs.sampled_from(names))
             attrs[name] = draw(hs.sampled_from(PERTURB_VALUES[name]))
+        elif kind == 'respell':
+            # the same codec under another registered name is another
+            # option value (and other bytes in the header)
+            named = [k for k in ENC_ATTRS
+                     if k in attrs and attrs[k] in ALIASES]
+
+            if named:
+                k = draw(hs.sampled_from(named))
+                attrs[k] = draw(hs.sampled_from(ALIASES[attrs[k]]))
         elif kind == 'unset' and attrs:
             del attrs[draw(hs.sampled_from(sorted(attrs)))]
         elif kind == 'deep' and isinstance(attrs.get('meta'), dict):
@@ -619,6 +647,12 @@ def pairs(draw):
                      draw(hs.sampled_from([None, None, 0, 4, 'x', 'utf-8',
                                            '$del']))])
         ops.append('options-dict')
+
+    if draw(hs.integers(0, 2)) == 0:
+        # the same description filled in in the opposite order: the options
+        # are a mapping, their order of arrival is not part of the tree
+        u['attr_order'] = 'reversed'
+        ops.append('reversed-attribute-order')
 
     return {'a': t, 'b': u, 'ops': ops, 'post': post}
 
